@@ -358,3 +358,16 @@ for _pid, _d in _ADD.items():
             CHECKS[_pid][_k] = list(CHECKS[_pid].get(_k, [])) + _v
         else:
             CHECKS[_pid][_k] = CHECKS[_pid].get(_k, "") + _v
+
+# Additions of round 13 to the level texts (appended here so that the entries above stay readable).
+_ROUND13 = {
+    "C01": " Unit unacked-resume: a subscriber with a persistent session leaves a generated subset of its deliveries unacknowledged (no PUBACK / no PUBREC / no PUBCOMP), ends its connection and resumes it 1-3 times; every message accepted after a resume reaches it exactly once at min(QoS) (a retransmission of an unacknowledged earlier message is allowed, any other PUBLISH is not). In unit concurrent a client's connection may end in the middle of its operation list (the client goes on under a new identifier); the interval oracle treats the end like an UNSUBSCRIBE of everything the connection held.",
+    "C05": " Attackers also publish with the retain flag (empty payloads included) and carry retained or empty wills; after every attack a new client connects and subscribes (SUBACK), a witness publishes a retained message (live copy to the newcomer) and a second newcomer receives the retained copy.",
+    "C06": " One history in eight starts with a crowd: 17-64 subscribers gather on one or two filters and most of them leave in a generated order, with re-subscriptions in between.",
+    "C10": " One plan in six contains a hoard: one persistent session collects 20-48 filters, drops half or more of them in a generated order, changes or drops a few survivors and is resumed; messages for dropped and kept filters follow.",
+    "C11": " Unit enum also lists 576 acceptable CONNECTs whose user name, password or will message is present and empty, with keep-alive 0, 1, 60 and 65535, with and without an identifier.",
+    "C16": " Unit faults also has servers that have seen 120-520 short-lived connections between two of the case's clients, and bulk cases (32-256 KiB buffers, 10-250 packets written back to back, then a packet at the size limit of the buffer, then the cut).",
+    "C20": " Delivered messages carry the retain flag in a quarter and an empty payload in a sixth of the cases.",
+}
+for _k, _v in _ROUND13.items():
+    CHECKS[_k]["level_text"] += _v
